@@ -923,13 +923,15 @@ fn parents(
 ) -> Vec<anyhow::Result<SignedEntry>> {
     let mut res = Vec::new();
 
-    while !key.is_empty() {
+    loop {
         let entry = get_exact(table, namespace, author, &key, true);
-        key.pop();
         match entry {
             Err(err) => res.push(Err(err)),
             Ok(Some(entry)) => res.push(Ok(entry)),
-            Ok(None) => continue,
+            Ok(None) => {}
+        }
+        if key.pop().is_none() {
+            break;
         }
     }
     res.reverse();
